@@ -69,6 +69,16 @@ def run(tier):
         P.append(p)
     for dt in (["u16", "i32", "f32", "f64", "u64", "u8", "u1"] if thorough else ["u16", "f32", "i64", "u4"]):
         P.append(big_gap_program(len(P) + 1, dt, 40000 if progs.WIDTH[dt] >= 8 else 300000))
+    # gaps in structured float / integer streams: the stored summary entries (lifted from the file) treat the gap
+    # samples of float signals as absent
+    for i, dt in enumerate(["f32", "f64", "f32", "f64", "u16", "i32"] * (3 if thorough else 1)):
+        q, model = progs.gen_writer_program(rng, len(P) + 1, kind="c09-sum", types=[dt], nsig=1, gaps=True, overlaps=(i % 2 == 1),
+                                            omit=False, annos=False, utc=False, userdata=False, late_defs=False,
+                                            maxlen=6000, gens=[["ramp", 7], ["ramp", 13], ["bit", 5], ["ramp", 100]])
+        q["ops"] += progs.reader_ops(rng, model, nreads=4, with_defs=False)
+        q["ops"].append({"op": "sumvals", "file": "a"})
+        q["model"] = progs.model_json(model)
+        P.append(q)
     # overlaps whose length is not a whole number of bytes, before / at / after block boundaries, for every narrow type
     for dt in ["u1", "u4", "i4"] + (["u8", "u16", "f32"] if thorough else ["u8"]):
         per = max(1, 8 // progs.WIDTH[dt])
